@@ -942,7 +942,12 @@ def runOp1 (op : Op) (o : Obj) : R Obj :=
     | .val (str _), _ => .error .outOfDomain
     | o, r =>
       match o.iterable? true with
-      | some s => if Value.isIterable r then do let s ← s; pure (.lazy (s.thenList (elems r))) else .error .noFunction
+      | some s =>
+        if Value.isIterable r then
+          (match r with
+           | Value.set l => if l.length > 1 then .error .outOfDomain else do let s ← s; pure (.lazy (s.thenList l))
+           | r => do let s ← s; pure (.lazy (s.thenList (elems r))))
+        else .error .noFunction
       | none => .error .noFunction
   | .plusLeft l =>
     match l, o with
@@ -953,7 +958,12 @@ def runOp1 (op : Op) (o : Obj) : R Obj :=
     | _, .val (str _) => .error .outOfDomain
     | l, o =>
       match o.iterable? true with
-      | some s => if Value.isIterable l then do let s ← s; pure (.lazy (LSeq.cons (elems l) s)) else .error .noFunction
+      | some s =>
+        if Value.isIterable l then
+          (match l with
+           | Value.set x => if x.length > 1 then .error .outOfDomain else do let s ← s; pure (.lazy (LSeq.cons x s))
+           | l => do let s ← s; pure (.lazy (LSeq.cons (elems l) s)))
+        else .error .noFunction
       | none => .error .noFunction
   | .timesInt n =>
     match o with
@@ -1030,10 +1040,9 @@ def runOp1 (op : Op) (o : Obj) : R Obj :=
   | .setCmp which other =>
     let a? : Option VL := match o with
       | .view .keys d => some (dictKeys d)
-      | .view .items d => some (dictItems d)
       | o => o.asSet?
     match a? with
-    | none => (match o with | .val (str _) | .val (int _) | .val null => .error .outOfDomain | _ => .error .noFunction)
+    | none => (match o with | .val (str _) | .val (int _) | .val null | .view .items _ => .error .outOfDomain | _ => .error .noFunction)
     | some a => .ok (.val (bool (match which with
       | 0 => setLt a other
       | 1 => setLe a other
